@@ -1,9 +1,13 @@
 #!/bin/sh
-# usage: seedrun.sh <patch.diff> <ID> [tier]   -- applies a seeded change to /repo, runs the check, undoes it
-patch=$1; id=$2; tier=${3:-quick}
+# usage: seedrun.sh <patch.diff> <ID> [tier] [tail-lines]
+# applies a seeded change to /repo, runs the check, undoes it. Holds the exclusive /repo lock meanwhile
+# (checks take it shared), so concurrent checks never see a patched tree.
+patch=$(readlink -f "$1"); id=$2; tier=${3:-quick}
+mkdir -p /verif/build
+exec 9>/verif/build/repo.lock
+flock -x 9
 cd /repo || exit 2
+if [ -n "$(git status --short)" ]; then echo "/repo is not clean; refusing"; exit 2; fi
 git apply "$patch" || { echo "PATCH DOES NOT APPLY"; exit 2; }
-cd /verif && python3 check.py $id --tier $tier 2>&1 | tail -${4:-8}
-rc=$?
-git -C /repo checkout -- . 
-exit $rc
+cd /verif && VERIF_REPO_LOCKED=1 python3 check.py $id --tier $tier 2>&1 | tail -${4:-8}
+git -C /repo checkout -- .
